@@ -14,6 +14,7 @@ Directive grammar (each on its own line, leading whitespace allowed):
   //@ sig                   following plain lines go between signature and body
   //@ entry                 ... right after the body's opening brace
   //@ tail                  ... immediately before the tail expression (last expression of the body)
+  //@ exit                  ... immediately before the body's closing brace (functions returning `()`)
   //@ loop N [iter=NAME]    ... between the N-th loop header and its body (N counts for/while/loop
                             keywords in textual order, from 1); iter=NAME names a for-loop iterator
   //@ before "TEXT" [#k]    ... before the k-th (default: only) occurrence of TEXT in the body
@@ -402,7 +403,18 @@ def _loop_headers(text, st, bo):
         if x.kind == "ident" and x.text in ("for", "while", "loop"):
             # `for<'a>` in types is not a loop
             if x.text == "for" and st[j + 1].text == "<": j += 1; continue
-            k = j + 1; d = 0
+            k = j + 1
+            # skip the pattern part (may contain braces): `for PAT in`, `while let PAT =`
+            if x.text == "for" or (x.text == "while" and st[k].kind == "ident" and st[k].text == "let"):
+                stop = "in" if x.text == "for" else "="
+                while True:
+                    y = st[k]
+                    if y.kind == "punct" and y.text in OPEN:
+                        k = match_close(st, k) + 1; continue
+                    if (y.kind == "ident" and y.text == stop) or (y.kind == "punct" and y.text == stop): break
+                    k += 1
+                k += 1
+            d = 0
             while True:
                 y = st[k]
                 if y.kind == "punct":
@@ -510,7 +522,7 @@ def extract_item(path, selector, opts, directives, findings_open):
     # drop doc comments inside types (field docs are harmless but `//!` is not)
     if it.kind == "fn":
         text = splice_fn(text, opts, directives, path, selector)
-    elif any(k in directives for k in ("sig", "entry", "tail", "loop", "before", "after", "ret")):
+    elif any(k in directives for k in ("sig", "entry", "tail", "exit", "loop", "before", "after", "ret")):
         raise ExtractError("splice directives only apply to fn items (%s)" % selector)
     pc.text = prefix + text
     return pc
@@ -547,6 +559,10 @@ def splice_fn(text, opts, directives, path, selector):
         if "tail" in directives:
             p = _tail_pos(text, st, bo)
             edits.append((p, p, "\n" + directives["tail"] + "\n"))
+        if "exit" in directives:
+            # just before the closing brace of the body (for functions returning `()`)
+            bc_ = match_close(st, bo)
+            edits.append((st[bc_].start, st[bc_].start, "\n" + directives["exit"] + "\n"))
         loops = _loop_headers(text, st, bo)
         for (n, itername, ltxt) in directives.get("loop", []):
             if n < 1 or n > len(loops):
@@ -554,13 +570,12 @@ def splice_fn(text, opts, directives, path, selector):
             kwi, lbo = loops[n - 1]
             if itername:
                 # find `in` of this for
-                j = kwi + 1; d = 0
+                j = kwi + 1
                 while True:
                     y = st[j]
-                    if y.kind == "punct":
-                        if y.text in OPEN: d += 1
-                        elif y.text in CLOSE: d -= 1
-                    if y.kind == "ident" and y.text == "in" and d == 0: break
+                    if y.kind == "punct" and y.text in OPEN:
+                        j = match_close(st, j) + 1; continue
+                    if y.kind == "ident" and y.text == "in": break
                     j += 1
                 edits.append((st[j].end, st[j].end, " %s:" % itername))
             edits.append((st[lbo].start, st[lbo].start, "\n" + ltxt + "\n"))
@@ -700,7 +715,7 @@ def generate(spec_path, open_findings=()):
                     nonlocal cur, buf
                     if cur is None: return
                     txt = "\n".join(buf)
-                    if cur[0] in ("sig", "entry", "tail"):
+                    if cur[0] in ("sig", "entry", "tail", "exit"):
                         directives[cur[0]] = (directives.get(cur[0], "") + "\n" + txt) if cur[0] in directives else txt
                     elif cur[0] == "loop":
                         directives.setdefault("loop", []).append((cur[1], cur[2], txt))
@@ -729,7 +744,7 @@ def generate(spec_path, open_findings=()):
                         if d2.startswith("ret "): directives["ret"] = d2[4:].strip()
                         elif d2.startswith("derive "): directives.setdefault("derive", []).append(d2[7:].strip())
                         elif d2.startswith("attr "): directives.setdefault("attr", []).append(d2[5:].strip())
-                        elif d2 in ("sig", "entry", "tail"): cur = (d2,)
+                        elif d2 in ("sig", "entry", "tail", "exit"): cur = (d2,)
                         elif d2.startswith("loop "):
                             ws = d2.split()
                             itn = None
